@@ -56,13 +56,21 @@ Configs ==
 Reruns == {c \in Configs : c.model = "valid" /\ c.snippets \in {"default", "nested_dirs"} /\ c.arg = "none"}
 Histories == {<<c>> : c \in Configs} \cup {<<c, c>> : c \in Reruns}
 
+(* Histories with the model cache switched on (--cache_model): run, something happens to the cache file, run   *)
+(* again on the unchanged model.  Every clause must hold for both runs.                                        *)
+CacheHistories == {[target |-> t, between |-> b] : t \in {"jsonschema", "xsd"},
+                                                   b \in {"nothing", "truncate", "garbage", "empty_file", "delete"}}
+
 -----------------------------------------------------------------------------
 Rules == {"prop_not_initialized", "ctor_arg_without_prop", "optional_without_default", "invariant_without_description",
           "duplicate_invariant_description", "unknown_base", "unknown_property_type", "reserved_property_name",
           "doc_reference_unknown", "invariant_unknown_function", "list_of_optionals", "property_with_value",
           "understood_method_bad_body", "pattern_not_anchored", "bad_docstring_rst", "constant_set_wrong_literal",
           "enum_int_value", "default_not_none", "unknown_decorator", "subscript_arity", "self_reference_in_ctor",
-          "contract_unknown_argument"}
+          "contract_unknown_argument",
+          \* two sites in ONE class and on ONE source line (operands of one invariant), identical messages:
+          \* the double mutation must report the message twice
+          "same_line_len_arity", "same_line_unknown_call"}
 Sites == {{"Alpha"}, {"Beta"}, {"Alpha", "Beta"}}
 \* on: sequence (sorted) of the classes on which the rule is broken
 SeqOf(S) == IF S = {"Alpha"} THEN <<"Alpha">> ELSE IF S = {"Beta"} THEN <<"Beta">> ELSE <<"Alpha", "Beta">>
